@@ -349,3 +349,90 @@ Definition reg_due (rg : registry) : option N :=
                            | None => Some (pb_next (snd np))
                            | Some m => Some (N.min m (pb_next (snd np))) end)
             (rg_probing rg) None.
+
+(* ---- the registry as a machine: operations at given times, and what an observer sees ------------------
+   (statement vocabulary of Props/C07.v; the daemon model performs exactly these operations on the
+   registry of an interface) *)
+
+Inductive rop : Type :=
+| OTick                                             (* check_probing + handle_expired_probes *)
+| OJoin (r : prec) (svc : bytes) (j : N)            (* is_probing_done with start_time = now + j *)
+| OTiebreak (qn : bytes) (incoming : list rr)       (* Probe::tiebreaking for a question name *)
+| OConflict (ans : rr) (j : N).                     (* conflict_handler for one answer, create_time = now + j *)
+
+(* one probing pass: registry afterwards, names a probe query was sent for, names activated *)
+Definition tick_names (rg : registry) (now : N) : registry * list bytes * list bytes :=
+  let '(ps, qs, ex) := check_probes (rg_probing rg) now in
+  let '(rg', _, _) := expire_all (mkReg ps (rg_active rg) (rg_changes rg)) ex in
+  (rg', map fst qs, ex).
+
+Definition apply_tiebreak (rg : registry) (qn : bytes) (incoming : list rr) (now : N) : registry :=
+  match aget qn (rg_probing rg) with
+  | Some pb => mkReg (aset qn (tiebreak pb incoming now) (rg_probing rg)) (rg_active rg) (rg_changes rg)
+  | None => rg
+  end.
+
+Definition apply_conflict (rg : registry) (ans : rr) (create_time : N) : registry :=
+  if conflict_applies rg ans then conflict_one rg ans create_time else rg.
+
+Definition apply_op (rg : registry) (now : N) (o : rop) : registry * list bytes * list bytes :=
+  match o with
+  | OTick => tick_names rg now
+  | OJoin r svc j => (fst (is_probing_done rg r svc (now + j)), [], [])
+  | OTiebreak qn incoming => (apply_tiebreak rg qn incoming now, [], [])
+  | OConflict ans j => (apply_conflict rg ans (now + j), [], [])
+  end.
+
+(* trace: per operation its time, the names probed, the names activated *)
+Fixpoint run_ops (rg : registry) (ops : list (N * rop)) : list (N * list bytes * list bytes) :=
+  match ops with
+  | [] => []
+  | (now, o) :: t => let '(rg', qs, ex) := apply_op rg now o in (now, qs, ex) :: run_ops rg' t
+  end.
+
+Fixpoint final_reg (rg : registry) (ops : list (N * rop)) : registry :=
+  match ops with
+  | [] => rg
+  | (now, o) :: t => final_reg (fst (fst (apply_op rg now o))) t
+  end.
+
+(* times never go back *)
+Fixpoint times_from (t : N) (ops : list (N * rop)) : Prop :=
+  match ops with
+  | [] => True
+  | (t', _) :: r => t <= t' /\ times_from t' r
+  end.
+
+(* every probe query for `n` and every activation of `n` comes at least 250 ms after the previous
+   probe query for `n` (`last`: time of the previous one, if any) *)
+Fixpoint spaced_250 (n : bytes) (last : option N) (tr : list (N * list bytes * list bytes)) : Prop :=
+  match tr with
+  | [] => True
+  | (t, qs, ex) :: tr' =>
+    (mem n qs = true \/ mem n ex = true -> match last with Some l => l + 250 <= t | None => True end)
+    /\ spaced_250 n (if mem n qs then Some t else last) tr'
+  end.
+
+(* consecutive elements at least 250 apart *)
+Fixpoint gaps_250 (l : list N) : Prop :=
+  match l with
+  | a :: ((b :: _) as t) => a + 250 <= b /\ gaps_250 t
+  | _ => True
+  end.
+
+Definition probe_times (n : bytes) (tr : list (N * list bytes * list bytes)) : list N :=
+  flat_map (fun e => let '(t, qs, _) := e in if mem n qs then [t] else []) tr.
+Definition activation_times (n : bytes) (tr : list (N * list bytes * list bytes)) : list N :=
+  flat_map (fun e => let '(t, _, ex) := e in if mem n ex then [t] else []) tr.
+
+(* a schedule of probing passes that is never late for the probe of `n`: every pass happens no
+   later than that probe's next_send *)
+Fixpoint never_late_for (n : bytes) (rg : registry) (ts : list N) : Prop :=
+  match ts with
+  | [] => True
+  | t :: r =>
+    match aget n (rg_probing rg) with Some p => t <= pb_next p | None => True end
+    /\ never_late_for n (fst (fst (tick_names rg t))) r
+  end.
+
+Definition ticks (ts : list N) : list (N * rop) := map (fun t => (t, OTick)) ts.
